@@ -25,7 +25,9 @@ import (
 var c03Faults = []string{"refuse", "hang", "reset", "short", "garbage", "500", "slow", "client-abort-upload", "client-abort-download", "status099", "status000",
 	// the backend accepts the connection and never reads: an upload larger than the socket
 	// buffers gets stuck on its way to it
-	"deaf-to-upload"}
+	"deaf-to-upload",
+	// a response of unknown length that breaks off: the client must be able to tell
+	"short-chunked"}
 
 type c03Cfg struct {
 	Strategy                           string
@@ -116,6 +118,10 @@ func c03Fault(h *helios, fbs []*wire.FaultBackend, fault string, slowStall time.
 	if ne, ok := rerr.(net.Error); ok && ne.Timeout() {
 		return "hung", d
 	}
+	if fault == "short-chunked" && len(data) >= 12 && strings.HasPrefix(string(data), "HTTP/1.1 200") && strings.HasSuffix(string(data), "\r\n0\r\n\r\n") {
+		// the backend's answer broke off, yet what the client holds is a complete, well-formed 200
+		return "complete-200", d
+	}
 	if len(data) >= 12 && strings.HasPrefix(string(data), "HTTP/1.1 ") {
 		return "status " + string(data[9:12]), d
 	}
@@ -186,6 +192,9 @@ func c03Run(cfgc c03Cfg, seq []string, concurrent bool, longStall bool) (key, wh
 	}
 	for i, r := range results {
 		outcome += fmt.Sprintf("%s:%s ", seq[i], strings.SplitN(r.how, ":", 2)[0])
+		if r.how == "complete-200" {
+			return "C03/wire/truncated-response-delivered-as-complete", fmt.Sprintf("%s: the backend's chunked answer broke off after one chunk; the client received a complete, well-formed 200 (terminating chunk and all) instead of an error or a closed connection", desc), outcome
+		}
 		if r.how == "hung" || r.d > c03Limit {
 			k := "C03/wire/faulted-request-not-ended-within-10x-timeout/" + seq[i]
 			return k, fmt.Sprintf("%s: the %s request had not ended after %v (all configured timeouts are 1s)", desc, seq[i], r.d.Round(100*time.Millisecond)), outcome
